@@ -898,6 +898,9 @@ func vsRunBehaviour(t *testing.T, bh vsBehaviour) []vkM {
 	if cfg == "novideoB" { // B has no video codec: it rejects video sections for lack of codecs
 		cfgA, cfgB = "default", "audioonly"
 	}
+	if cfg == "alwaysdcA" { // only A always negotiates data channels: B's offers can be media-only
+		cfgA, cfgB = "alwaysdc", "default"
+	}
 	a := &vsPeer{name: "A", pc: vsNewPC(t, cfgA), trIDs: map[*RTPTransceiver]int{}, applied: map[string]bool{}}
 	b := &vsPeer{name: "B", pc: vsNewPC(t, cfgB), trIDs: map[*RTPTransceiver]int{}, applied: map[string]bool{}}
 	defer func() {
